@@ -40,4 +40,20 @@ def InStep (d : Device) (r : Reader) : Prop :=
 /-- the (document, signature) pairs an answer carries: last prepared document first -/
 def pairsOf (docs sigs : List Nat) : List (Nat × Nat) := docs.reverse.zip sigs
 
+/-- a round's inputs: the prepared documents (non-empty) and one signature each -/
+structure RoundIn where
+  docs : List Nat
+  sigs : List Nat
+  deriving Repr
+
+def RoundIn.Ok (x : RoundIn) : Prop := x.docs ≠ [] ∧ x.sigs.length = x.docs.length
+
+/-- all further rounds, collecting what each end reports -/
+def rounds : Device → Reader → List RoundIn → List (Session.Outcome × Option Session.Outcome)
+  | _, _, [] => []
+  | d, r, x :: xs =>
+    let (d', r', o1, o2) := round d r x.docs x.sigs
+    (o1, o2) :: rounds d' r' xs
+
+
 end IsoMdl.Honest
